@@ -86,20 +86,24 @@ class Fork:
                 # the final data element in the buffer.
                 locked = self.instream_lock.acquire(timeout=0.1)
                 if locked:
-                    if self.next.next is None:
-                        try:
-                            x = next(self.instream)
-                        except StopIteration:
-                            # `instream` is exhausted.
-                            # `self.next.next` remains `None`.
-                            # The next call to `__next__` will land
-                            # in the first branch and raise `StopIteration`.
-                            pass
-                        else:
-                            box = TeeX(x)
-                            self.next.next = box  # IMPORTANT: this line goes before the next to avoid race.
-                            self.buffer.put(box)
-                    self.instream_lock.release()
+                    try:
+                        if self.next.next is None:
+                            try:
+                                x = next(self.instream)
+                            except StopIteration:
+                                # `instream` is exhausted.
+                                # `self.next.next` remains `None`.
+                                # The next call to `__next__` will land
+                                # in the first branch and raise `StopIteration`.
+                                pass
+                            else:
+                                box = TeeX(x)
+                                self.next.next = box  # IMPORTANT: this line goes before the next to avoid race.
+                                self.buffer.put(box)
+                    finally:
+                        # Release the lock also if `instream` raises,
+                        # otherwise the other forks would wait on it forever.
+                        self.instream_lock.release()
                     break
 
             # Check whether the buffer head should be popped:
